@@ -1,6 +1,7 @@
 import Upf.Proofs.Lockset
 import Upf.Proofs.Tab
 import Upf.Model.LockFacts
+import Upf.Proofs.Local
 /-!
 # C11 — concurrent associations do not interfere
 
@@ -69,5 +70,19 @@ example : ∃ s', Lockset.run (fun _ => 0) { owner := fun _ => none, inside := f
   refine ⟨_, rfl, rfl⟩
 -- and an access without the guard is not a step of a disciplined program
 example : Lockset.run (fun _ => 0) { owner := fun _ => none, inside := fun _ => none } [.acquire 1 0, .enter 2 7] = none := rfl
+
+/-! ### at the level of the agent's handlers (BESS agent model): the store of another association is never touched -/
+
+/-- whatever association `a` sends — a Session Establishment, Modification or Deletion (accepted or refused at any point), a report
+answered "context not found" — and however `a` ends (release, timeout, heartbeat failure, stop), the record the agent holds for any
+OTHER association `a'` (its node ID, PFD table and every stored session with all rules) is exactly what it was -/
+theorem other_associations_store_untouched (cfg : Agent.Cfg) (w : Agent.World) (a a' : Nat) (h : a' ≠ a) :
+    (∀ lseid r, (Agent.establish cfg w a lseid r).1.conn a' = w.conn a') ∧
+    (∀ r, (Agent.modify cfg w a r).world.conn a' = w.conn a') ∧
+    (∀ seid, (Agent.deleteSession cfg w a seid).1.conn a' = w.conn a') ∧
+    (∀ seid, (Agent.reportContextNotFound cfg w a seid).conn a' = w.conn a') ∧
+    (Agent.shutdownConn cfg w a).conn a' = w.conn a' :=
+  ⟨fun l r => Agent.establish_local cfg w a a' l r h, fun r => Agent.modify_local cfg w a a' r h,
+   fun s => Agent.delete_local cfg w a a' s h, fun s => Agent.report_local cfg w a a' s h, Agent.shutdown_local cfg w a a' h⟩
 
 end C11
